@@ -17,5 +17,5 @@ grep -E "^(VIOLATION|KNOWN-FINDING)" /tmp/seedrun_$TAG.out
 grep -- "->" /tmp/seedrun_$TAG.err | head -5
 for f in $(grep -o 'replay=[^ ]*' /tmp/seedrun_$TAG.out | cut -d= -f2 | head -3); do echo "--- $f"; head -c 1500 "$f"; echo; done
 H=$(python3 -c "import hashlib,sys; print(hashlib.sha1(sys.argv[1].encode()).hexdigest()[:8])" "$COPY")
-rm -rf "$COPY" /verif/.cache/target_$H /verif/.cache/harness_$H /tmp/seedrun_$TAG.out /tmp/seedrun_$TAG.err
+rm -rf "$COPY" /verif/.cache/target_$H /verif/.cache/harness_$H /verif/.cache/evidence_$H /verif/.cache/replays_$H /tmp/seedrun_$TAG.out /tmp/seedrun_$TAG.err
 exit $RC
